@@ -37,7 +37,9 @@ RULE = ('DSL programs with one designated child wrapped in a lifted transform, a
         'one jitted class (states = canonical (variables, last call kind); transitions = calls '
         'compared with the plain program); plus every ordered pair of 16 module field values '
         '(hash- and ==-colliding ones included) on one jit / remat transformed class, second call '
-        'vs the plain module. Non-trivial: body has a mutable variable or the '
+        'vs the plain module; while_loop with writes in the predicate / body x role of the '
+        'collection x trips x mutability: performed as in the Python loop or refused, never dropped. '
+        'Non-trivial: body has a mutable variable or the '
         'history contains a change of attribute / structure / mutability; distinct by case text')
 ASSUMPTIONS = [
   'value clauses for transforms other than remat use bodies that draw no rng inside the '
@@ -115,14 +117,94 @@ def units(tier, seed):
     us.append(dict(kind='H', first=first, maxlen=L))
   for form in ('deco-jit', 'deco-remat', 'class-jit'):
     us.append(dict(kind='K', form=form))
+  us.append(dict(kind='W'))
   return us
 
 
 def run_unit(unit):
   res = core.new_result()
   {'A': _fam_A, 'R': _fam_R, 'B': _fam_B, 'D': _fam_D, 'M': _fam_M, 'H': _fam_H,
-   'S': _fam_S, 'K': _fam_K}[unit['kind']](res, unit)
+   'S': _fam_S, 'K': _fam_K, 'W': _fam_W}[unit['kind']](res, unit)
   return res
+
+
+def _fam_W(res, unit):
+  """nn.while_loop whose predicate and / or body write a counter: a write is either performed
+  as in the Python loop or it raises — it is never accepted and dropped. Writes in {cond, body}
+  x role of the collection {carry, broadcast, not lifted} x trips x outer mutability."""
+  import jax
+  import jax.numpy as jnp
+  import flax.linen as nn
+  from flax import errors
+
+  def mk(wc, wb, trips, role, lifted):
+    class Loop(nn.Module):
+      @nn.compact
+      def __call__(self, x):
+        self.variable('cnt', 'c', lambda: jnp.zeros((), jnp.float32))
+
+        def bump(m, by):
+          m.put_variable('cnt', 'c', m.get_variable('cnt', 'c') + by)
+
+        def cond_fn(m, c):
+          if wc:
+            bump(m, 1.0)
+          return c['i'] < trips
+
+        def body_fn(m, c):
+          if wb:
+            bump(m, 10.0)
+          return {'i': c['i'] + 1, 'x': c['x'] * 2.0}
+
+        c0 = {'i': jnp.int32(0), 'x': x}
+        if lifted:
+          kw = dict(carry_variables='cnt') if role == 'carry' else \
+              dict(broadcast_variables='cnt') if role == 'broadcast' else \
+              dict(carry_variables=False, broadcast_variables=False)
+          c = nn.while_loop(cond_fn, body_fn, self, c0, **kw)
+        else:
+          c = c0
+          while cond_fn(self, c):
+            c = body_fn(self, c)
+        return c['x']
+    return Loop()
+
+  x = jnp.asarray([1.0, 2.0], jnp.float32)
+  v0 = {'cnt': {'c': jnp.zeros((), jnp.float32)}}
+  for wc, wb, trips, role, mut in itertools.product(
+      (False, True), (False, True), (0, 1, 2), ('carry', 'broadcast', 'none'), (True, False)):
+    if role == 'carry' and not mut:
+      continue      # a carried collection has to be mutable (jax cannot thread a constant carry)
+    key = f'W|cond={wc}|body={wb}|trips={trips}|{role}|mutable={mut}'
+    case = dict(write_in_cond=wc, write_in_body=wb, trips=trips, role=role, mutable=mut)
+    res['evals'] += 2
+    res['transitions'] += 1
+
+    def run(lifted):
+      try:
+        out = mk(wc, wb, trips, role, lifted).apply(v0, x, mutable=['cnt'] if mut else False)
+        y, upd = out if mut else (out, {})
+        return ('ok', np.asarray(y).tolist(),
+                float(upd['cnt']['c']) if 'cnt' in upd else None)
+      except errors.ModifyScopeVariableError:
+        return ('modify', None, None)
+      except Exception as e:  # noqa
+        return ('raises:' + type(e).__name__, None, None)
+    plain, lifted = run(False), run(True)
+    if lifted[0] == 'ok' and lifted != plain:
+      core.violation(res, f'W-silent|{key}',
+                     'while_loop returned, but not what the Python loop returns: a write made in '
+                     'the predicate or the body was accepted and dropped (or applied differently)',
+                     case, observed=jsonable(lifted), expected=jsonable(plain))
+    elif lifted[0] != 'ok' and plain[0] == 'ok' and not (wc or wb):
+      core.violation(res, f'W-raises|{key}', f'a loop that writes nothing raised {lifted[0]}', case)
+    elif lifted[0].startswith('raises:') and plain[0] != lifted[0]:
+      # a lifted loop may refuse a write (ModifyScopeVariableError) or a carry it cannot thread;
+      # any other exception is reported for the read-only programs only (above)
+      core.outcome(res, 'W:' + lifted[0])
+    core.outcome(res, f'W:{lifted[0]}')
+    res['nontrivial'].append(core.h(key))
+  res['samples'].append(dict(kind='W'))
 
 
 FIELD_VALUES = [0, 1, -1, -2, 2, 1.0, -1.0, 0.5, True, False, (-1,), (-2,), (1, 2), 'a', 'b', None]
